@@ -176,10 +176,15 @@ def work(ctx, idx):
         # family of deliveries
         dels = []
         if big:
+            # (read sizes scaled up: with a rule that matches the whole input the
+            # scanner moves the pending token on every refill, and tens of
+            # thousands of one-byte reads would run into the wall-clock backstop,
+            # the only thing in a run that is not a function of the seed)
+            big_sched = lambda: [min(c * 128, 1 << 20) for c in gen_sched(irng)]
             for _ in range(6):
-                dels.append(('user', irng.choice(BUF_SIZES), gen_sched(irng)))
+                dels.append(('user', irng.choice(BUF_SIZES), big_sched()))
             dels.append(('fread', 16384, [1 << 20]))
-            dels.append(('fread', irng.choice(BUF_SIZES), gen_sched(irng)))
+            dels.append(('fread', irng.choice(BUF_SIZES), big_sched()))
         else:
             for p in range(1, len(data) + 1):
                 dels.append(('user', irng.choice(BUF_SIZES), [p, 1]))
